@@ -30,10 +30,10 @@ META = {
 }
 GEN = ['seawater']
 MODULES = ['TamocV.Props.C07', 'TamocV.Gen.SeawaterPy', 'TamocV.Model.Profile']
-RULE = ('profiles of 3-500 levels, 0-6 extra variables, recognised unit systems, built as array / xarray / netCDF file / open netCDF dataset / world-ocean default; '
-        'history of 0-7 operations drawn from append (new or existing variable, own depth grid partly outside the range, unit conversion), extend_profile_deeper (N given or computed), '
+RULE = ('profiles of 3-500 levels, 0-6 extra variables, recognised unit systems, built as array / xarray / netCDF file / open netCDF dataset / world-ocean default / array stored bottom-first; '
+        'history of 0-7 operations (the first scenarios cycle through every source form and every operation) drawn from append (new or existing variable, own depth grid partly outside the range, unit conversion), extend_profile_deeper (N given or computed), '
         'insert_density (with and without P0), insert_potential_density, insert_buoyancy_frequency; after every operation queries at stored depths, interior points '
-        '(incl. next-to-node), points outside the range, as float / list / ndarray, with name lists: all names, shuffled subsets with unknown names, single name, empty list; '
+        '(incl. next-to-node), points outside the range, as float / list / ndarray and as int / list of ints / integer ndarray / 0, with name lists: all names, shuffled subsets with unknown names, single name, empty list; '
         'a case is non-trivial when (source, levels, columns, operation history) is new')
 LEVEL_NOTE = ('theorems over the reals about a hand-written model of get_values / interp1d / the profile operations; the model is tied to the real code by differential '
               'execution on seeded histories (tolerance 1e-11, exact at nodes), not by translation')
@@ -82,7 +82,12 @@ def snapshot(p):
     table, names = sp.claimed_table(p)
     f = p.f
     cache_rows = np.column_stack([np.array(f.x, dtype=float), np.array(f.y, dtype=float).T])
+    x = table[:, 0]
+    d = np.diff(x)
     return {'table': table, 'names': names, 'zmin': float(p.z_min), 'zmax': float(p.z_max),
+            # the ends of the data the profile holds — NOT read from z_min/z_max
+            'zlo': float(np.min(x)), 'zhi': float(np.max(x)),
+            'order': 'increasing' if np.all(d > 0) else 'decreasing' if np.all(d < 0) else 'duplicates' if len(set(x.tolist())) < len(x) else 'unsorted',
             'cache': cache_rows, 'cnames': [str(x) for x in p.f_names],
             'interp_data': np.array(p.interp_data, dtype=float)}
 
@@ -108,8 +113,8 @@ def close_table(a, b):
 # ---------------------------------------------------------------------------------------------
 
 def gen_depths(rng, table, zmin, zmax):
-    """query depths: stored depths, interior points, points outside"""
-    x = table[:, 0]
+    """query depths: stored depths, interior points, points outside (zmin, zmax = ends of the TABLE)"""
+    x = np.sort(table[:, 0])
     n = len(x)
     nodes = list(range(n)) if n <= 40 else sorted(set([0, 1, n - 2, n - 1] + [rng.randrange(n) for _ in range(24)]))
     zs = [float(x[i]) for i in nodes]
@@ -165,13 +170,11 @@ def gen_name_lists(rng, names):
 NEW_NAMES = ['co2', 'h2s', 'dye', 'turbidity', 'ph_x', 'u_x', 'chl']
 
 
-def gen_op(rng, p, snap, built, workdir):
+def gen_op(rng, p, snap, built, workdir, force=None):
     """next operation: (descriptor dict, callable performing it on the real profile, payload for the model)"""
-    kinds = ['append', 'append', 'extend', 'insert_density', 'insert_density_P0', 'insert_potential_density',
-             'insert_buoyancy_frequency']
-    kind = rng.choice(kinds)
+    kind = force or rng.choice(OPS + ['append'])
     names = snap['names']
-    zmin, zmax = snap['zmin'], snap['zmax']
+    zmin, zmax = snap['zlo'], snap['zhi']
     if kind == 'append':
         k = rng.randint(1, 2)
         existing = [nm for nm in names if nm not in ('temperature', 'salinity', 'pressure')]
@@ -215,12 +218,13 @@ def gen_op(rng, p, snap, built, workdir):
                 p.extend_profile_deeper(znew, N=N)
         return desc, do, ('Profile.extendDeeper', [znew])     # S1 appended after the run
     if kind == 'insert_density_P0':
-        P0 = rng.choice([101325.0, rng.uniform(1e5, 5e7)])
+        P0 = rng.choice([101325.0, rng.uniform(1e5, 5e7), rng.uniform(1e5, 5e7), 0.0])
         desc = {'op': 'insert_density', 'P0': P0}
 
         def do():
             return p.insert_density(P0)
-        return desc, do, ('Profile.densityAt', [P0])
+        # P0 = 0.0 is falsy for the code's `if P0:` — it then behaves like insert_density() (modelled so)
+        return desc, do, (('Profile.densityAt', [P0]) if P0 else ('Profile.insertDensityP0', [P0]))
     desc = {'op': kind}
     meth = getattr(p, kind)
     drv = {'insert_density': 'Profile.insertDensity', 'insert_potential_density': 'Profile.insertPotentialDensity',
@@ -238,13 +242,16 @@ def tol_abs(*vals):
 
 
 def judge_row(ctx, got, z, qnames, snap, history, after, how):
-    """the property predicates for ONE answered depth; got = list of len(qnames)"""
-    table, names = snap['table'], snap['names']
+    """the property predicates for ONE answered depth; got = list of len(qnames).  The expected values come
+    from the data the profile holds (interp_ds) only: its first / last stored depth decide the clamping."""
+    names = snap['names']
+    table = snap['table'][np.argsort(snap['table'][:, 0], kind='mergesort')]
     x = table[:, 0]
     n = len(x)
     base = {'history': history, 'query': {'z': z, 'names': qnames, 'call': how}, 'answer': [float(v) for v in got],
-            'stored_names': names, 'z_min': snap['zmin'], 'z_max': snap['zmax']}
-    zc = min(max(z, snap['zmin']), snap['zmax'])
+            'stored_names': names, 'first_stored_depth': snap['zlo'], 'last_stored_depth': snap['zhi'],
+            'z_min': snap['zmin'], 'z_max': snap['zmax']}
+    zc = min(max(z, snap['zlo']), snap['zhi'])
     i = bisect.bisect_left(x, zc)
     for j, nm in enumerate(qnames):
         g = float(got[j])
@@ -266,15 +273,10 @@ def judge_row(ctx, got, z, qnames, snap, history, after, how):
             if not (g == want):
                 key = ('node-not-exact:' if kind == 'node' else 'clamp-not-boundary:') + after
                 ctx.violation(key, 'get_values at a stored depth does not return the stored value' if kind == 'node'
-                              else 'get_values outside the range does not return the boundary value',
+                              else 'get_values outside the range of stored depths does not return the boundary row',
                               dict(base, name=nm, got=g, stored=want, stored_depth=float(x[i]), row=i))
         else:
             lo, hi = i - 1, i
-            if lo < 0 or hi >= n:
-                ctx.count('pred:bounds-inconsistent')
-                ctx.violation('clamp-bounds-inconsistent:' + after, 'z_min/z_max do not bracket the stored depths',
-                              dict(base, first=float(x[0]), last=float(x[-1])))
-                continue
             yl, yh = float(table[lo, col]), float(table[hi, col])
             if not (math.isfinite(yl) and math.isfinite(yh)):
                 ctx.count('pred:between-nonfinite(skipped)')
@@ -291,13 +293,44 @@ def judge_row(ctx, got, z, qnames, snap, history, after, how):
                               dict(base, name=nm, got=g, expected=want, weight=w, neighbours=[yl, yh]))
 
 
+def integer_queries(ctx, rng, p, snap, history, after):
+    """depths given as Python ints / lists of ints / integer ndarrays / 0 must answer like the same floats"""
+    zlo, zhi = snap['zlo'], snap['zhi']
+    ints = sorted(set([0, int(math.floor(zlo)) - 3, int(math.ceil(zhi)) + 7, int(math.ceil(zhi)) + 5000,
+                       int(round(rng.uniform(zlo, zhi))), int(round(0.5 * (zlo + zhi)))]))
+    nl = list(snap['names'])
+    calls = [('int', k, lambda k=k: p.get_values(k, nl), lambda k=k: p.get_values(float(k), nl)) for k in ints]
+    calls.append(('list-of-ints', ints, lambda: p.get_values(list(ints), nl), lambda: p.get_values([float(k) for k in ints], nl)))
+    calls.append(('int-ndarray', ints, lambda: p.get_values(np.array(ints), nl), lambda: p.get_values(np.array(ints, dtype=float), nl)))
+    calls.append(('numpy-int', ints[-1], lambda: p.get_values(np.int64(ints[-1]), nl), lambda: p.get_values(float(ints[-1]), nl)))
+    for how, zq, fi, ff in calls:
+        ctx.count('pred:integer-depth')
+        ctx.evaluations += 1
+        with quiet():
+            want = np.array(ff(), dtype=float)
+            try:
+                got, exc = np.array(fi(), dtype=float), None
+            except Exception as e:
+                got, exc = None, '%s: %s' % (type(e).__name__, e)
+        if exc is not None or not same_table(got, want):
+            ctx.violation('integer-depth-clamp', 'a depth given as an integer is answered differently from the same depth as a float',
+                          {'history': history, 'after': after, 'query': {'z': zq, 'names': nl, 'call': how},
+                           'with_int': exc if exc is not None else got.tolist(), 'with_float': want.tolist(),
+                           'first_stored_depth': zlo, 'last_stored_depth': zhi})
+
+
 def query_state(ctx, rng, p, snap, history, after, lines, pending):
     """ask the real profile; queue the same questions for the Lean model"""
-    zs = gen_depths(rng, snap['table'], snap['zmin'], snap['zmax'])
+    zs = gen_depths(rng, snap['table'], snap['zlo'], snap['zhi'])
     nls = gen_name_lists(rng, snap['names'])
-    sorted_tab = bool(np.all(np.diff(snap['table'][:, 0]) > 0))
-    if not sorted_tab:
-        ctx.count('state:depths-not-increasing')
+    ctx.count('state:depths-' + snap['order'])
+    sorted_tab = snap['order'] in ('increasing', 'decreasing')
+    # z_min / z_max must be the first / last stored depth (they decide the clamping)
+    ctx.count('pred:z-range')
+    if snap['zmin'] != snap['zlo'] or snap['zmax'] != snap['zhi']:
+        ctx.violation('z-range-stale:' + after, 'z_min / z_max are not the shallowest / deepest stored depth',
+                      {'history': history, 'z_min': snap['zmin'], 'z_max': snap['zmax'],
+                       'first_stored_depth': snap['zlo'], 'last_stored_depth': snap['zhi']})
     # cache == build(table): the arrays the interpolant holds are the claimed table
     ctx.count('pred:cache-fresh')
     order = np.argsort(snap['table'][:, 0], kind='mergesort')
@@ -306,6 +339,8 @@ def query_state(ctx, rng, p, snap, history, after, lines, pending):
         ctx.violation('cache-stale:' + after, 'the cached interpolant / interp_data / f_names differ from the data the profile holds',
                       {'history': history, 'stored_names': snap['names'], 'f_names': snap['cnames'],
                        'table_shape': list(snap['table'].shape), 'cache_shape': list(snap['cache'].shape)})
+    if sorted_tab:
+        integer_queries(ctx, rng, p, snap, history, after)
     real = []
     singles = []
     for kind, nl in nls:
@@ -385,7 +420,7 @@ def query_state(ctx, rng, p, snap, history, after, lines, pending):
                     judge_row(ctx, big[qi], zs[qi], nl, snap, history, after, 'ndarray')
         ctx.evaluations += len(zs)
     lines.append(req('Profile.getValues', snap['table'].shape[1], snap['table'], ','.join(snap['names']),
-                     snap['zmin'], snap['zmax'], zs, ';'.join(','.join(nl) for _k, nl in nls)))
+                     snap['zlo'], snap['zhi'], zs, ';'.join(','.join(nl) for _k, nl in nls)))
     pending.append(('query', {'history': history, 'after': after, 'zs': zs, 'nls': nls, 'real': real, 'singles': singles}))
 
 
@@ -393,10 +428,15 @@ def query_state(ctx, rng, p, snap, history, after, lines, pending):
 # scenarios
 # ---------------------------------------------------------------------------------------------
 
-def build_scenario(ctx, rng, workdir):
+SOURCES = ['array', 'xarray', 'ncfile', 'ncdataset', 'world', 'array-bottom-first']
+OPS = ['append', 'extend', 'insert_density', 'insert_density_P0', 'insert_potential_density', 'insert_buoyancy_frequency']
+
+
+def build_scenario(ctx, rng, workdir, force=None):
     from tamoc import ambient
     u = rng.random()
-    if u < 0.08:
+    kind = force or ('world' if u < 0.08 else 'array-bottom-first' if u < 0.14 else None)
+    if kind == 'world':
         which = rng.choice(['none', 'surface'])
         with quiet():
             if which == 'none':
@@ -405,10 +445,19 @@ def build_scenario(ctx, rng, workdir):
             else:
                 p = ambient.Profile(np.array([0.0, rng.uniform(5.0, 25.0), rng.uniform(33.0, 36.0)]))
         return sp.Built(p, 'world', []), {'source': 'world-ocean:' + which}
-    cast = sp.make_cast(rng, 3, 500)
-    route = rng.choice(sp.routes_for(cast))
+    cast = sp.make_cast(rng, 3, 500, with_pressure=True if kind else None)
     err = rng.choice([0.0, 0.0, 0.01, 10 ** rng.uniform(-4, -0.3)])
     stab = rng.random() < 0.6
+    if kind == 'array-bottom-first':
+        # the same table stored from the deepest level up (an up-cast); pressure supplied
+        data, names, units = sp.cast_table(cast)
+        chem_names, chem_units = sp.chem_lists(cast)
+        with quiet():
+            p = ambient.Profile(np.array(data[::-1]), chem_names=list(chem_names), err=err, ztsp_units=list(units[:4]),
+                                chem_units=list(chem_units), stabilize_profile=False)
+        return sp.Built(p, 'array-bottom-first', []), {'source': 'array-bottom-first', 'err': err, 'stabilize_profile': False,
+                                                       'cast': cast['meta']}
+    route = kind or rng.choice(sp.routes_for(cast))
     with quiet():
         built = sp.build_profile(cast, route, workdir, err=err, stabilize=stab)
     return built, {'source': route, 'err': err, 'stabilize_profile': stab, 'cast': cast['meta']}
@@ -423,30 +472,43 @@ def run(ctx, lean_ok):
         shutil.rmtree(workdir, ignore_errors=True)
 
 
+def by_design(route, desc, exc):
+    """raises that are the documented behaviour, not a failure of the code under test"""
+    # a netCDF-backed profile refuses to overwrite an existing netCDF variable with other units (fill_nc_db_variable)
+    return route == 'ncdataset' and desc['op'] == 'append' and isinstance(exc, ValueError) and 'units must be in' in str(exc)
+
+
 def _run(ctx, lean_ok, workdir):
-    nscen = ctx.n(36, 600)
+    nscen = ctx.n(48, 600)
     batch_lines, batch_pending = [], []
     stats = {'q_bad': 0, 'q_n': 0, 's_bad': 0, 's_n': 0}
     rec = FsolveRecorder()
     with rec:
         for si in range(nscen):
             rng = random.Random(ctx.rng.getrandbits(60))
+            force_src = SOURCES[si] if si < len(SOURCES) else None
             try:
-                built, origin = build_scenario(ctx, rng, workdir)
+                built, origin = build_scenario(ctx, rng, workdir, force_src)
             except Exception as e:
-                # construction problems belong to C14 / C20; counted so that they stay visible
                 ctx.count('construct-raised:%s' % type(e).__name__)
+                ctx.violation('construct-raised:%s:%s' % (force_src or 'random', type(e).__name__),
+                              'constructing a profile from a valid synthetic cast raised %s: %s' % (type(e).__name__, e),
+                              {'source': force_src, 'seed_index': si})
                 continue
             p = built.profile
-            ctx.count('source:' + origin['source'].split(':')[0])
+            src = origin['source'].split(':')[0]
+            ctx.count('source:' + src)
             history = [dict(origin, op='construct')]
             snap = snapshot(p)
             ctx.count('levels:%s' % ('3-9' if snap['table'].shape[0] < 10 else '10-99' if snap['table'].shape[0] < 100 else '100-500'))
             query_state(ctx, rng, p, snap, list(history), 'construct', batch_lines, batch_pending)
             nops = rng.choice([0, 1, 2, 3, 4, 5, 7])
+            if si < 3 * len(OPS):
+                nops = max(nops, 1)
             opnames = []
-            for _k in range(nops):
-                desc, do, (drv, payload) = gen_op(rng, p, snap, built, workdir)
+            for k in range(nops):
+                force_op = OPS[si % len(OPS)] if (k == 0 and si < 3 * len(OPS)) else None
+                desc, do, (drv, payload) = gen_op(rng, p, snap, built, workdir, force_op)
                 rec.last = None
                 ret = None
                 with quiet():
@@ -458,16 +520,28 @@ def _run(ctx, lean_ok, workdir):
                 after = desc['op'] + ('(P0)' if 'P0' in desc else '')
                 ctx.count('op:' + after)
                 if raised is not None:
-                    ctx.count('op-raised:%s:%s' % (after, type(raised).__name__))
                     desc = dict(desc, raised='%s: %s' % (type(raised).__name__, raised))
                 history.append(desc)
                 opnames.append(after)
                 new = snapshot(p)
                 if raised is not None:
-                    # an operation that raises must leave a usable profile; it is queried again below
+                    if by_design(built.route, desc, raised):
+                        ctx.count('op-refused-by-design:append-other-units-to-netCDF-variable')
+                    elif src == 'array-bottom-first' and desc['op'] == 'extend_profile_deeper':
+                        ctx.count('op-raised:extend-on-bottom-first-table')
+                        ctx.violation('extend-deeper-on-bottom-first-table',
+                                      'extend_profile_deeper on a profile stored bottom-first raised %s' % desc['raised'],
+                                      {'history': list(history)})
+                    else:
+                        ctx.count('op-raised:%s:%s' % (after, type(raised).__name__))
+                        ctx.violation('op-raised:%s:%s' % (after, type(raised).__name__),
+                                      'a profile operation raised on a valid profile: %s' % desc['raised'], {'history': list(history)})
+                    # an operation that raises must leave a usable profile: it is queried again
                     snap = new
-                    query_state(ctx, rng, p, snap, list(history), after + '[raised]', batch_lines, batch_pending)
+                    if snap['order'] in ('increasing', 'decreasing'):
+                        query_state(ctx, rng, p, snap, list(history), after + '[raised]', batch_lines, batch_pending)
                     continue
+                ctx.count('op-done:' + after)
                 # ---- transition correspondence: Lean step on the state before vs the state after ----
                 if drv == 'Profile.extendDeeper':
                     S1 = float(np.ravel(rec.last)[0]) if rec.last is not None else float('nan')
@@ -479,7 +553,17 @@ def _run(ctx, lean_ok, workdir):
                 else:
                     batch_lines.append(req(drv, *(state_args(snap) + payload)))
                     batch_pending.append(('step', {'history': list(history), 'after': after, 'now': new}))
-                snap = new
+                before, snap = snap, new
+                if snap['order'] not in ('increasing', 'decreasing'):
+                    # the stored depths are no longer distinct / ordered: the profile is broken, the history ends here
+                    narrow = before['order'] == 'decreasing' and desc['op'] == 'extend_profile_deeper' and snap['order'] == 'duplicates'
+                    ctx.violation('extend-deeper-on-bottom-first-table' if narrow else 'stored-depths-%s:%s' % (snap['order'], after),
+                                  'after the operation the stored depths are %s' % snap['order'] +
+                                  (': extend_profile_deeper drops the LAST stored row (the surface row of a bottom-first table) and appends '
+                                   'below the deepest one, which is stored first' if narrow else ''),
+                                  {'history': list(history), 'stored_depths_head': snap['table'][:3, 0].tolist(),
+                                   'stored_depths_tail': snap['table'][-3:, 0].tolist(), 'z_min': snap['zmin'], 'z_max': snap['zmax']})
+                    break
                 query_state(ctx, rng, p, snap, list(history), after, batch_lines, batch_pending)
             ctx.nontrivial.add((origin['source'], snap['table'].shape, tuple(opnames)))
             if si < 4:
@@ -491,13 +575,21 @@ def _run(ctx, lean_ok, workdir):
                 batch_lines, batch_pending = [], []
     flush(ctx, lean_ok, batch_lines, batch_pending, stats)
     if lean_ok:
-        ctx.oblige('correspondence Model.Profile.getValues(build(claimed table)) == real cached get_values on %d (state, name-list) batteries (rel %g)'
+        ctx.oblige('correspondence Model.Profile.getValues(build(claimed table), table ends) == real cached get_values on %d (state, name-list) batteries (rel %g)'
                    % (stats['q_n'], TOL['gen_vs_source']), stats['q_bad'] == 0 and stats['q_n'] > 0, '%d disagreements' % stats['q_bad'])
         ctx.oblige('correspondence Model.Profile.step(state before, op) == real state after the operation on %d transitions (rel %g; names, z_min, z_max exact)'
                    % (stats['s_n'], TOL['gen_vs_source']), stats['s_bad'] == 0, '%d disagreements' % stats['s_bad'])
-    raised = {k: v for k, v in ctx.hist.items() if k.startswith('op-raised') or k.startswith('construct-raised')}
-    if raised:
-        ctx.notes.append('operations / constructions that raised on the real code (state re-queried afterwards; not a C07 matter): %r' % raised)
+    # ---- floors: the run must actually have exercised every source, every operation and every predicate ----
+    h = ctx.hist
+    floors = [('source:' + k, 1) for k in ('array', 'xarray', 'ncfile', 'ncdataset', 'world-ocean', 'array-bottom-first')]
+    floors += [('op-done:' + k, 3) for k in ('append', 'extend_profile_deeper', 'insert_density', 'insert_density(P0)',
+                                             'insert_potential_density', 'insert_buoyancy_frequency')]
+    floors += [('pred:node', 2000), ('pred:between', 2000), ('pred:clamp', 1000), ('pred:unknown-zero', 1000),
+               ('pred:batch-eq-single', 1000), ('pred:short-batch', 300), ('pred:integer-depth', 300),
+               ('pred:cache-fresh', 80), ('pred:z-range', 80)]
+    low = [(k, h.get(k, 0), f) for k, f in floors if h.get(k, 0) < f]
+    ctx.oblige('coverage floors: every source form, every operation (completed >= 3 times) and every predicate exercised (%d counters)' % len(floors),
+               not low, 'below floor (counter, seen, floor): %r' % low)
 
 
 def flush(ctx, lean_ok, lines, pending, stats):
